@@ -61,6 +61,9 @@ ASSUMPTIONS = [
     "entrance-counted locks may have two entrance lanes (one switch each) and an entrance_switch_ignore_window_ms; each "
     "entering ball takes one lane; two balls never pass the SAME lane closer together than the ignore window + 0.25 s "
     "(the second queues), different lanes are independent",
+    "three-device chains may have a trough with confirm_eject_type switch (the ball rolls over a switch right behind "
+    "the exit for ok/late/stray kicks) feeding a two-ball stager whose slow eject can outlast the trough's "
+    "ball_missing_timeout; balls still expected at some target (pending incoming balls) widen the playfield lower bound",
     "ball search is left at its default (disabled); a loose ball at a rest point sits still (no switch hits)",
 ]
 HORIZONS = {"rest_horizon_virtual_s": 200, "settle_cap_virtual_s": 4000}
